@@ -155,8 +155,19 @@ def run_collect(props):
     n = min(16, len(vs))
     if n == 1:
         return [_one(v) for v in vs]
-    with multiprocessing.Pool(n) as pool:
-        return pool.map(_one, vs)
+    # a fresh pool for every batch of tasks: a check evaluated in-process keeps its syntax trees and caches alive,
+    # and sixteen workers that each ran several hundred evaluations exhausted the machine's memory once (the kernel
+    # then kills one worker and multiprocessing.Pool waits for its result for ever)
+    # every rule module is loaded before the workers are forked: they all run the code as it was when the
+    # self-test started, whatever is edited on disk meanwhile
+    for i in range(1, 21):
+        importlib.import_module('pxv.rules.c%02d' % i)
+    out = []
+    batch = n * 12
+    for i in range(0, len(vs), batch):
+        with multiprocessing.Pool(n) as pool:
+            out.extend(pool.map(_one, vs[i:i + batch], chunksize=1))
+    return out
 
 
 def run(props, quiet=False):
